@@ -76,7 +76,11 @@ class ScriptedSocket(socket.socket):
     `decide(n, remaining, key)` returns the number of bytes to deliver (0 => b'').
     """
 
-    def __init__(self, data: bytes, decide, inspect=True):  # deliberately no super().__init__: no descriptor
+    def __init__(self, data: bytes, decide, inspect=True, msg_max=None):  # deliberately no super().__init__: no descriptor
+        # msg_max: message-preserving mode (SOCK_SEQPACKET / datagram): the peer sends messages of 1..msg_max bytes; a recv(n) with n smaller
+        # than the next message returns its first n bytes and the REST OF THAT MESSAGE IS LOST, as the kernel does
+        self.msg_max = msg_max
+        self.truncated = 0
         self._data = data
         self._off = 0
         self._decide = decide
@@ -97,12 +101,15 @@ class ScriptedSocket(socket.socket):
             self._dead_polls += 1
             if self._dead_polls > DEAD_POLL_LIMIT:
                 raise Livelock(f"recv called {self._dead_polls} times after the peer closed")
-        c = self._decide(n, remaining, self._key_now if self._inspect else None, self)
-        if c < 0 or c > remaining or (n is not None and n >= 0 and c > n):
-            raise AssertionError(f"explorer bug: illegal delivery {c} (n={n}, remaining={remaining})")
+        n_menu = self.msg_max if self.msg_max else n
+        c = self._decide(n_menu, remaining, self._key_now if self._inspect else None, self)
+        if c < 0 or c > remaining or (n_menu is not None and n_menu >= 0 and c > n_menu):
+            raise AssertionError(f"explorer bug: illegal delivery {c} (n={n_menu}, remaining={remaining})")
         if c == 0:
             self.closed = True
-        out = self._data[self._off:self._off + c]
+        take = c if (not self.msg_max or n is None or n < 0) else min(c, n)
+        self.truncated += c - take
+        out = self._data[self._off:self._off + take]
         self._off += c
         return out
 
